@@ -219,6 +219,58 @@ def spaces(tier):
     return sp
 
 
+def lemma_conformance():
+    """Environment-model validation: the same small projects are run once over the fake kernel (children scripted with
+    the statuses the real commands produce) and once with real /bin/bash children through the real OS; what cond prints
+    and returns must agree.  A disagreement means a stub is wrong: inconclusive, never a violation."""
+    import signal as _sig
+    from vlib.hrun import TaskSpec
+    from vlib import fakeos as fk
+    out = {"obligations": 0, "discharged": 0, "queries": 0, "solver_s": 0.0, "violations": [], "samples": [], "inconclusive": []}
+    scenarios = [
+        ("chain ok", [("a", "true", [], False), ("b", "true", [":a"], False)], {}, 1),
+        ("exit 3 skips dependent", [("a", "exit 3", [], False), ("b", "true", [":a"], False), ("c", "true", [], False), ("all", None, [":b", ":c"], False)], {"a": 3 << 8}, 1),
+        ("killed by SIGKILL", [("a", "kill -9 $$", [], False), ("b", "true", [":a"], False)], {"a": 9}, 1),
+        ("parallel pair", [("a", "true", [], True), ("b", "sleep 0.05", [], True), ("c", "true", [":a", ":b"], False)], {}, 2),
+        ("parallel failure", [("a", "exit 7", [], True), ("b", "true", [], True), ("all", None, [":a", ":b"], False)], {"a": 7 << 8}, 2),
+    ]
+    import conductor.cli.run as cli_run
+    for label, tasks, statuses, jobs in scenarios:
+        specs = [TaskSpec(n, "group" if cmd is None else "run_command", deps, par=par, run=cmd or "true") for n, cmd, deps, par in tasks]
+        root = specs[-1].ident
+        views = []
+        for real in (False, True):
+            proj = hrun.Project()
+            try:
+                proj.write_tasks(specs)
+                if real:
+                    res = hrun.invoke(cli_run.main, hrun.run_ns(task_identifier=root, jobs=jobs), str(proj.root), None)
+                else:
+                    class S(fk.Sched):
+                        def status_for(self, kernel, proc):
+                            return statuses.get(proc.name, 0)
+                    res = hrun.invoke(cli_run.main, hrun.run_ns(task_identifier=root, jobs=jobs), str(proj.root), fk.Kernel(S(), clock=fk.Clock()))
+                info = hrun.parse_run_output(res)
+                views.append({"status": res.status, "completed": sorted(x for _, x in info["completed"]), "failed": sorted(info["failed_list"]),
+                              "skipped": sorted(info["skipped_list"]), "codes": sorted(CODE_RE.findall(res.out + res.err))})
+            finally:
+                proj.cleanup()
+        out["obligations"] += 1
+        if views[0] == views[1]:
+            out["discharged"] += 1
+        else:
+            out["inconclusive"].append("fake kernel and real OS disagree on %r: fake %s, real %s" % (label, views[0], views[1]))
+        out["samples"].append({"scenario": label, "fake_kernel": views[0], "real_os": views[1]})
+    return out
+
+
+def lemmas(tier):
+    from vlib.runner import Lemma
+    return [Lemma("fake-kernel-vs-real-processes", lemma_conformance,
+                  "5 small projects (chain, failing exit status, SIGKILL, parallel pair, parallel failure) run over the fake kernel and "
+                  "with real bash children; outcomes, reported exit codes and cond's exit status must agree")]
+
+
 def canaries(tier):
     return [
         Canary("handler-reaps-one-child-per-signal",
